@@ -107,3 +107,35 @@ Proof. apply source_sort_gen. Qed.
 
 Theorem source_sort_key s m r : src_sort s (fun l => py_sorted_key l m r) = (m_sort_key s m r, Ok RNone).
 Proof. apply source_sort_gen. Qed.
+
+(* ---- index / __getitem__ (integer argument) ----------------------------------------------------------- *)
+Theorem source_index s x : Inv0 s -> src_index s x = (s, res_map RNat (m_index s x)).
+Proof.
+  intros H. unfold src_index. destruct (d_get (imap s) x) as [r|] eqn:G.
+  - assert (E : m_index s x = Ok (apparent_loop (dead s) r r)) by (unfold m_index; rewrite G; reflexivity).
+    rewrite (source_apparent_index s x r _ H G E), Nat2Z.id, E. reflexivity.
+  - unfold m_index. rewrite G. reflexivity.
+Qed.
+
+Theorem source_getitem s i j : Inv0 s -> norm_index (length (m_live s)) i = Some j ->
+  src_getitem_int s i = (s, res_map RItem (m_getitem s i)).
+Proof.
+  intros H N.
+  assert (N2 : norm_index (length (m_live s)) (norm_neg s i) = Some j).
+  { pose proof (norm_index_spec _ _ _ N) as [Lj E]. unfold norm_neg, m_len. rewrite (inv_len s H), E.
+    unfold norm_index. replace (0 <=? Z.of_nat j)%Z with true by (symmetry; apply Z.leb_le; lia).
+    replace (Z.of_nat j <? Z.of_nat (length (m_live s)))%Z with true by (symmetry; apply Z.ltb_lt; lia).
+    simpl. rewrite Nat2Z.id. reflexivity. }
+  destruct (real_index_ok s _ j H N2) as (r & x & R1 & R2 & R3).
+  assert (G : forall idx, idx = norm_neg s i ->
+              (let real_index := src_get_real_index s idx in
+               match py_get (items s) real_index with
+               | None => (s, Raise IndexError)
+               | Some ret => (s, py_return_slot ret)
+               end) = (s, res_map RItem (m_getitem s i))).
+  { intros idx ->. cbv zeta. rewrite (source_real_index s _ r H R1), py_get_nat, R2.
+    unfold m_getitem. rewrite R1, R2. reflexivity. }
+  unfold src_getitem_int. destruct (i <? 0)%Z eqn:C.
+  - apply G. unfold norm_neg, lenZ. rewrite C. reflexivity.
+  - apply G. unfold norm_neg. rewrite C. reflexivity.
+Qed.
